@@ -3801,11 +3801,11 @@ class Union(Construct):
             index = self.parsefrom
             self.subcons[index] # raises IndexError
             skipfallback = True
-            skipforward = self.subcons[index].sizeof() == self.subcons[-1].sizeof()
+            skipforward = index == len(self.subcons)-1
         if isinstance(self.parsefrom, str):
             index = {sc.name:i for i,sc in enumerate(self.subcons) if sc.name}[self.parsefrom] # raises KeyError
             skipfallback = True
-            skipforward = self.subcons[index].sizeof() == self.subcons[-1].sizeof()
+            skipforward = index == len(self.subcons)-1
 
         for i,sc in enumerate(self.subcons):
             block += """
